@@ -23,8 +23,9 @@ Fixpoint insert (x : nat) (l : list nat) : list nat :=
 Definition sort_dedup (l : list nat) : list nat := fold_right insert [] l.
 
 (** the visible yield points of the model: 0 = between operations, 999 = no yield point *)
+(** 83 is not in the sources: it is the harness' own point inside the closure it passes to Handle::modify (the cell's write lock is held) *)
 Definition model_yield_ids : list nat :=
-  sort_dedup (filter (fun y => negb (Nat.eqb y 0) && negb (Nat.eqb y 999)) (map yield_id pc_samples)).
+  sort_dedup (filter (fun y => negb (Nat.eqb y 0) && negb (Nat.eqb y 999) && negb (Nat.eqb y 83)) (map yield_id pc_samples)).
 
 Lemma samples_complete : forall p, existsb (Nat.eqb (yield_id p)) (map yield_id pc_samples) = true.
 Proof.
@@ -70,6 +71,21 @@ Definition expected_lock_kinds : list (string * string) :=
   [("rebuild_interest_cache", "write"); ("register", "read"); ("register_dispatch", "write")].
 
 Theorem source_lock_kinds : gen_lock_kinds = [] \/ gen_lock_kinds = expected_lock_kinds.
+Proof. vm_compute. first [left; reflexivity | right; reflexivity]. Qed.
+
+(** how reload.rs gets at the reloadable value: every callback of the wrapper takes a BLOCKING read lock (an emission that meets a
+    reload waits for it and is then judged by the new value: [PRgCall] / [PWrAskCall] / [PWrRetCall] / [PEmEnCall] return [None]
+    while [st_cellw] is set), `on_subscribe` and `modify` a blocking write lock.  A non-blocking `try_read` would let an emission be
+    judged by neither value. *)
+Definition expected_reload_locks : list (string * string) :=
+  [("on_register_dispatch", "read"); ("on_subscribe", "write"); ("register_callsite", "read"); ("enabled", "read");
+   ("on_new_span", "read"); ("on_record", "read"); ("on_follows_from", "read"); ("event_enabled", "read"); ("on_event", "read");
+   ("on_enter", "read"); ("on_exit", "read"); ("on_close", "read"); ("on_id_change", "read"); ("max_level_hint", "read");
+   ("downcast_raw", "read"); ("callsite_enabled", "read"); ("enabled", "read"); ("event_enabled", "read"); ("on_new_span", "read");
+   ("on_record", "read"); ("on_enter", "read"); ("on_exit", "read"); ("on_close", "read"); ("max_level_hint", "read");
+   ("modify", "write"); ("with_current", "read")].
+
+Theorem source_reload_locks : gen_reload_locks = [] \/ gen_reload_locks = expected_reload_locks.
 Proof. vm_compute. first [left; reflexivity | right; reflexivity]. Qed.
 
 Theorem source_points : gen_yield_ids = [] \/ gen_yield_ids = model_yield_ids.
